@@ -1494,6 +1494,7 @@ pub fn tree_liveness(seed: u64, worker: usize, slot: &Slot) {
     let dir = fresh_dir(worker, "tlive");
     let (o, tag) = thresholds(&mut rng);
     let tree = Arc::new(LsmTree::open(options(&dir.join("db"), &o)).unwrap_or_else(|e| violation("open-error", format!("{e}"))));
+    let stall_bytes: Option<u64> = o.iter().find(|(k, _)| *k == "--l0-write-stall-threshold-bytes").and_then(|(_, v)| v.parse().ok());
     // tables with overlapping key ranges, built before the threads start
     let n_clients = rng.range(1, 3) as usize;
     let mut ts = 0u64;
@@ -1508,9 +1509,14 @@ pub fn tree_liveness(seed: u64, worker: usize, slot: &Slot) {
             if keys.is_empty() {
                 keys.push(rng.usize_below(6));
             }
+            // with a byte threshold in force, some tables are bigger than the threshold itself
+            let pad = match stall_bytes {
+                Some(b) if rng.chance(1, 3) => ((b / 2) as usize).min(30_000),
+                _ => 30,
+            };
             for k in keys {
                 ts += 1;
-                b.put(&key(k), ts, &value(ts, 30)).unwrap_or_else(|e| violation("builder-error", format!("{e}")));
+                b.put(&key(k), ts, &value(ts, pad)).unwrap_or_else(|e| violation("builder-error", format!("{e}")));
             }
             drop(b.seal().unwrap_or_else(|e| violation("builder-error", format!("{e}"))));
             files.push(path);
